@@ -66,9 +66,9 @@ def rows_region(view, gplus, out, cfg):
     return body
 
 
-def real_rows(view, gplus, cfg, sel):
+def real_rows(view, gplus, cfg, sel, reset=True):
     rq, tls = request_for(view, gplus, sel)
-    r = pyg.request(rq, cfg, tls=tls)
+    r = pyg.request(rq, cfg, tls=tls, reset=reset)
     return rows_region(view, gplus, r.out, cfg), r
 
 
